@@ -239,7 +239,11 @@ class SymInt:
     def __radd__(self, o): return self._bin(o, lambda a, b: b + a)
     def __sub__(self, o): return self._bin(o, lambda a, b: a - b)
     def __rsub__(self, o): return self._bin(o, lambda a, b: b - a)
-    def __mul__(self, o): return self._bin(o, lambda a, b: a * b)
+    def __mul__(self, o):
+        if isinstance(o, SymInt):
+            return SymProd(self, o)
+        return self._bin(o, lambda a, b: a * b)
+
     def __rmul__(self, o): return self._bin(o, lambda a, b: b * a)
     def __neg__(self): return SymInt(z3.simplify(-self.z))
     def __pos__(self): return self
@@ -302,6 +306,34 @@ class SymInt:
 
     def __format__(self, spec):
         return '<sym>'
+
+
+class SymProd(SymInt):
+    """Product of two symbolic integers.  Comparisons with the constant 0
+    (the only use in dd: sign tests such as `p * v <= 0`) are expanded to
+    sign logic, which keeps the queries linear."""
+    __slots__ = ('fa', 'fb')
+
+    def __init__(self, a, b):
+        SymInt.__init__(self, a.z * b.z)
+        self.fa, self.fb = a.z, b.z
+
+    def _cmp(self, o, f):
+        if isinstance(o, int) and not isinstance(o, bool) and o == 0:
+            a, b = self.fa, self.fb
+            pos = z3.Or(z3.And(a > 0, b > 0), z3.And(a < 0, b < 0))
+            neg = z3.Or(z3.And(a > 0, b < 0), z3.And(a < 0, b > 0))
+            zero = z3.Or(a == 0, b == 0)
+            # identify the comparison by probing f on constants
+            lt = f(z3.IntVal(-1), z3.IntVal(0))
+            eq = f(z3.IntVal(0), z3.IntVal(0))
+            gt = f(z3.IntVal(1), z3.IntVal(0))
+            parts = []
+            for flag, cond in ((lt, neg), (eq, zero), (gt, pos)):
+                if z3.is_true(z3.simplify(flag)):
+                    parts.append(cond)
+            return SymBool(z3.Or(parts) if parts else z3.BoolVal(False))
+        return SymInt._cmp(self, o, f)
 
 
 def symmin(*args, **kw):
@@ -420,56 +452,204 @@ def _w_task(args):
     return done, work
 
 
+def _worker_main(conn, mod, params):
+    try:
+        _w_init(mod, params)
+    except BaseException:
+        conn.send(('init_error', traceback.format_exc()[-2000:]))
+        return
+    conn.send(('ready', None))
+    while True:
+        try:
+            msg = conn.recv()
+        except EOFError:
+            return
+        if msg is None:
+            return
+        try:
+            conn.send(('done', _w_task(msg)))
+        except BaseException:
+            conn.send(('task_error', traceback.format_exc()[-2000:]))
+
+
+class MiniPool:
+    """Worker processes with pipes; no helper threads in the parent (forking
+    while multiprocessing.Pool's threads hold locks can deadlock a child)."""
+
+    def __init__(self, procs, mod, params):
+        self.ctx = mp.get_context('fork')
+        self.mod, self.params = mod, params
+        self.workers = {}       # conn -> process
+        self.idle = []
+        self.busy = {}          # conn -> task
+        self.errors = []
+        for _ in range(procs):
+            self._spawn()
+
+    def _spawn(self):
+        pc, cc = self.ctx.Pipe()
+        p = self.ctx.Process(target=_worker_main, args=(cc, self.mod, self.params),
+                             daemon=True)
+        p.start()
+        cc.close()
+        self.workers[pc] = p
+        self.busy[pc] = 'init'
+
+    def submit(self, task):
+        conn = self.idle.pop()
+        self.busy[conn] = task
+        conn.send(task)
+
+    def poll(self):
+        """Return the list of finished task results."""
+        from multiprocessing.connection import wait
+        out = []
+        if not self.busy:
+            return out
+        for conn in wait(list(self.busy), timeout=0.002):
+            task = self.busy.pop(conn)
+            try:
+                kind, payload = conn.recv()
+            except (EOFError, OSError):
+                kind, payload = 'crash', 'worker died'
+            if kind == 'ready':
+                self.idle.append(conn)
+            elif kind == 'done':
+                self.idle.append(conn)
+                out.append(payload)
+            else:
+                self.errors.append((kind, payload, task))
+                p = self.workers.pop(conn)
+                try:
+                    conn.close()
+                except OSError:
+                    pass
+                p.join(timeout=0.1)
+                if kind != 'init_error':
+                    self._spawn()
+                if task != 'init':
+                    # report the lost prefix as a failed path
+                    out.append(([dict(out=None, status='error:' + kind + ':' + str(payload)[-600:],
+                                      nq=0, tq=0.0, trace=[], nbranch=0)], []))
+        return out
+
+    def close(self):
+        for conn, p in self.workers.items():
+            try:
+                conn.send(None)
+            except (OSError, BrokenPipeError):
+                pass
+        for conn, p in self.workers.items():
+            p.join(timeout=0.2)
+            if p.is_alive():
+                p.terminate()
+            try:
+                conn.close()
+            except OSError:
+                pass
+        for p in self.workers.values():
+            p.join(timeout=1)
+            if p.is_alive():
+                p.kill()
+        self.workers = {}
+
+
+class Explorer:
+    """Non-blocking exploration of one harness on its own process pool."""
+
+    def __init__(self, mod, params, procs=None, max_paths=None, timeout_s=None):
+        self.procs = procs or int(os.environ.get('SYMDD_PROCS', '16'))
+        self.max_paths = max_paths
+        self.timeout_s = timeout_s
+        self.t0 = time.time()
+        self.results = []
+        self.stats = dict(paths=0, queries=0, solver_s=0.0, branches=0, complete=True)
+        self.pool = MiniPool(self.procs, mod, params)
+        self.queue = [[]]
+        self.stop = False
+        self.done = False
+
+    def step(self):
+        """Collect finished tasks, submit new ones.  Returns True when done."""
+        if self.done:
+            return True
+        stats = self.stats
+        for done, work in self.pool.poll():
+            for r in done:
+                stats['paths'] += 1
+                stats['queries'] += r['nq']
+                stats['solver_s'] += r['tq']
+                stats['branches'] += r['nbranch']
+                self.results.append(r)
+            self.queue.extend(work)
+        if self.max_paths is not None and stats['paths'] >= self.max_paths:
+            self.stop = True
+        if self.timeout_s is not None and time.time() - self.t0 > self.timeout_s:
+            self.stop = True
+        if any(k == 'init_error' for k, _, _ in self.pool.errors):
+            self.stop = True
+            if not any(r['status'].startswith('error:init') for r in self.results):
+                self.results.append(dict(
+                    out=None, status='error:init:' + self.pool.errors[0][1][-800:],
+                    nq=0, tq=0.0, trace=[], nbranch=0))
+        if self.stop:
+            if self.queue:
+                stats['complete'] = False
+        else:
+            while self.queue and self.pool.idle:
+                big = len(self.queue) > 4 * self.procs
+                budget, tb = (32, 4.0) if big else (1, 1.0)
+                self.pool.submit((self.queue.pop(), budget, tb))
+        nbusy = sum(1 for t in self.pool.busy.values() if t != 'init')
+        if nbusy == 0 and (self.stop or not self.queue):
+            self.finish()
+        return self.done
+
+    def finish(self):
+        if self.done:
+            return
+        self.done = True
+        self.stats['left'] = len(self.queue)
+        self.stats['solver_s'] = round(self.stats['solver_s'], 2)
+        self.stats['wall_s'] = round(time.time() - self.t0, 2)
+        self.pool.close()
+
+
 def explore(mod, params, procs=None, max_paths=None, deadline=None):
     """Explore all paths of `mod.Harness(**params)` on `procs` processes.
 
     Returns (path results, stats).  stats['complete'] is False when the path
     or time budget ran out before the work list was empty.
     """
-    procs = procs or int(os.environ.get('SYMDD_PROCS', '16'))
-    t0 = time.time()
-    results = []
-    stats = dict(paths=0, queries=0, solver_s=0.0, branches=0, complete=True)
-    ctx_mp = mp.get_context('fork')
-    with ctx_mp.Pool(procs, initializer=_w_init, initargs=(mod, params)) as pool:
-        pending = [pool.apply_async(_w_task, (([], 1, 1.0),))]
-        queue = []
-        stop = False
-        while pending or (queue and not stop):
-            nxt = []
-            for p in pending:
-                if p.ready():
-                    done, work = p.get()
-                    for r in done:
-                        stats['paths'] += 1
-                        stats['queries'] += r['nq']
-                        stats['solver_s'] += r['tq']
-                        stats['branches'] += r['nbranch']
-                        results.append(r)
-                    queue.extend(work)
-                else:
-                    nxt.append(p)
-            pending = nxt
-            if max_paths is not None and stats['paths'] >= max_paths:
-                stop = True
-            if deadline is not None and time.time() > deadline:
-                stop = True
-            if stop:
-                if queue:
-                    stats['complete'] = False
-                if not pending:
-                    break
-            else:
-                while queue and len(pending) < 2 * procs:
-                    big = len(queue) > 4 * procs
-                    budget, tb = (32, 4.0) if big else (1, 1.0)
-                    pending.append(pool.apply_async(
-                        _w_task, ((queue.pop(), budget, tb),)))
-            time.sleep(0.003)
-        stats['left'] = len(queue)
-    stats['solver_s'] = round(stats['solver_s'], 2)
-    stats['wall_s'] = round(time.time() - t0, 2)
-    return results, stats
+    ts = None if deadline is None else max(0.0, deadline - time.time())
+    ex = Explorer(mod, params, procs, max_paths, ts)
+    while not ex.step():
+        pass
+    return ex.results, ex.stats
+
+
+def explore_many(specs, concurrent=3):
+    """specs: list of dicts(mod, params, procs, max_paths, timeout_s).  Runs up
+    to `concurrent` explorations at a time (pools are created and driven from
+    this thread only).  Yields (index, results, stats) in order of `specs`."""
+    active = {}
+    nxt = 0
+    out = {}
+    emit = 0
+    while emit < len(specs):
+        while nxt < len(specs) and len(active) < concurrent:
+            sp = specs[nxt]
+            active[nxt] = Explorer(sp['mod'], sp['params'], sp.get('procs'),
+                                   sp.get('max_paths'), sp.get('timeout_s'))
+            nxt += 1
+        for i in list(active):
+            if active[i].step():
+                ex = active.pop(i)
+                out[i] = (ex.results, ex.stats)
+        while emit in out:
+            r, st = out.pop(emit)
+            yield emit, r, st
+            emit += 1
 
 
 def explore_seq(harness, max_paths=None):
